@@ -96,7 +96,7 @@ def harness_tetrad(G, nup, rng):
     return [np.einsum('b,bm...->m...', L[a], E) for a in range(4)]
 
 
-def run_case(spec):
+def _run_case(spec):
     res = common.new_result(spec)
     grids, _ = engine.grid_plan(spec)
     vals = []
@@ -224,3 +224,7 @@ def run_case(spec):
                          spec['order']],
                    scale_hints=hints)
     return res
+
+
+def run_case(spec):
+    return engine.refine_if_marginal(_run_case, spec, _run_case(spec))
